@@ -202,7 +202,14 @@ def check(world, tier):
             okip = "LOCALHOST" in repr(ip) or "127" in repr(ip)
             c.ob(okip, "default-ip", "default ip address is not 127.0.0.1", sample={"ip_address": "Ipv4Addr::LOCALHOST"})
             dv = e.subtree(s, ("L", e.entry_frame, 0), (fields.index("directory"),))
-            okdir = "std::env::current_dir" in repr(dv) or "closure_result" in repr(dv)   # fallback closure only when current_dir() fails
+            okdir = "std::env::current_dir" in repr(dv) or "closure_result" in repr(dv)
+            if not okdir:
+                # a fallback value is fine exactly in the states where current_dir() failed
+                for ev in e.events:
+                    if base_name(ev) == "std::env::current_dir" and isinstance(ev.ret, tuple) and ev.ret and ev.ret[0] == "t":
+                        ds = e.sym_ids.get(("discr", ev.ret[1], ()))
+                        if ds is not None and s.ctx.entails_eq(lin.var(ds), lin.const(1)):
+                            okdir = True
             c.ob(okdir, "default-directory", "default directory is not the current directory", sample={"directory": "env::current_dir()"})
         c.ob(any("std::env::current_dir" in repr(e.subtree(s, ("L", e.entry_frame, 0), (fields.index("directory"),))) for s in e.finals), "default-directory-current",
              "no return state of Config::default uses the current directory", nontrivial=False)
